@@ -6,7 +6,7 @@
 
   Core Lean only.  Every table / syntax byte comes from Gen/Config.lean, which the translator
   regenerates from /repo (and from the running CPython for `bytes.strip/isalnum/lower`) on every run.
-  The model describes the code that exists (after the repairs 6d569a0 and f1ebc7b), defects included.
+  The model describes the code that exists (after the repairs 6d569a0, f1ebc7b and 21a48ab), defects included.
 -/
 import DulwichModel.Model.Basic
 import DulwichModel.Gen.Config
@@ -34,6 +34,13 @@ def lowerBytes (s : Bytes) : Bytes := s.map lowerByte
 def lstrip (s : Bytes) : Bytes := s.dropWhile isPyWs
 def rstrip (s : Bytes) : Bytes := (s.reverse.dropWhile isPyWs).reverse
 def strip (s : Bytes) : Bytes := rstrip (lstrip s)
+
+/-- byte removed around a value by the `value.strip(...)` of `_parse_string` (git's `isspace`) -/
+def isParseWs (c : UInt8) : Bool := Gen.Config.parseStripSet.contains c
+def plstrip (s : Bytes) : Bytes := s.dropWhile isParseWs
+def prstrip (s : Bytes) : Bytes := (s.reverse.dropWhile isParseWs).reverse
+/-- `value.strip(b" \t\r\n")` -/
+def pstrip (s : Bytes) : Bytes := prstrip (plstrip s)
 
 /-- `s[:-n]` for `n ≤ len(s)` (used only behind an `endswith` of that length) -/
 def dropLast (n : Nat) (s : Bytes) : Bytes := s.take (s.length - n)
@@ -115,7 +122,7 @@ def parseLoop : Bytes → (ret ws : Bytes) → (inq : Bool) → Except Err Bytes
     else parseLoop rest (ret ++ ws ++ [c]) [] inq
 
 /-- `_parse_string` -/
-def parseString (v : Bytes) : Except Err Bytes := parseLoop (strip v) [] [] false
+def parseString (v : Bytes) : Except Err Bytes := parseLoop (pstrip v) [] [] false
 
 /-! ## `_check_variable_name`, `_check_section_name`, `_strip_comments`, `_is_line_continuation` -/
 
